@@ -223,7 +223,36 @@ def _model_args(ts, ba, bs, pi, pr, pc, a):
 
 
 # ------------------------------------------------------------------ one request through implementation, oracle, model
+class _Capped:
+    """the two open findings fail on every frame of their class; report the first 40 observations of each as failures
+    (they are attributed), count the rest, so that they cannot crowd other failures out of the failure list"""
+
+    def __init__(self, ctx):
+        self.ctx = ctx
+
+    def __getattr__(self, k):
+        return getattr(self.ctx, k)
+
+    def fail(self, case, detail, site=None):
+        cls = None
+        if case.get('pi') == 'YBR_FULL' and case.get('samples') == 3 and site == 'roundtrip':
+            cls = 'ybr-full'
+        elif case.get('ts') == RLE and isinstance(case.get('bs'), int) and isinstance(case.get('ba'), int) \
+                and case['ba'] >= 16 and (case['bs'] + 7) // 8 < case['ba'] // 8 and isinstance(detail, str) \
+                and 'decoded RLE segment data' in detail:
+            cls = 'rle-narrow'
+        if cls is not None:
+            n = getattr(self.ctx, '_c07_known', {})
+            n[cls] = n.get(cls, 0) + 1
+            self.ctx._c07_known = n
+            if n[cls] > 40:
+                self.ctx.hist('open_finding_observations', cls)
+                return
+        self.ctx.fail(case, detail, site=site)
+
+
 def _check(ctx, kind, ts, dtype, ba, bs, samples, pi, pr, pc, a, reqs, pending, layout='c', must_accept=False):
+    ctx = _Capped(ctx)
     case = _case(kind, ts, dtype, ba, bs, samples, pi, pr, pc, a, layout)
     st, val = _encode(a, ts, ba, bs, pi, pr, pc)
     spp = a.shape[2] if a.ndim > 2 else 1
@@ -348,7 +377,7 @@ def _must_accept(ctx, reqs, pending):
 
 
 def _frames(ctx, reqs, pending):
-    n = ctx.n(400, 8000)
+    n = ctx.n(400, 30000)
     for i in range(n):
         r = ctx.rng('frame', i)
         ts = r.choice([IMPLICIT, EXPLICIT, EXPLICIT, RLE, RLE, JLS, JLS])
